@@ -1027,11 +1027,13 @@ func callBuiltin(caller *frame, callpos token.Pos, fn *ssa.Builtin, args []value
 		case string, symstr:
 			// append([]byte, ...string) []byte
 			arg0 := args[0].([]value)
+			caller.i.noteAppend(caller, arg0, len(strElems(s)))
 			return append(arg0, strElems(s)...)
 		}
 		// append([]T, ...[]T) []T
 		src := args[1].([]value)
 		dst := args[0].([]value)
+		caller.i.noteAppend(caller, dst, len(src))
 		for _, e := range src {
 			dst = append(dst, copyVal(e))
 		}
@@ -1053,6 +1055,7 @@ func callBuiltin(caller *frame, callpos token.Pos, fn *ssa.Builtin, args []value
 		if n > 0 && len(dst) > 0 && len(src) > 0 && &dst[0] == &src[0] {
 			return n
 		}
+		caller.i.noteSliceWrite(caller, dst[:n])
 		// overlapping-safe copy of (possibly aggregate) elements
 		tmp := make([]value, n)
 		for k := 0; k < n; k++ {
